@@ -1,12 +1,14 @@
 SPECIFICATION SSpecMC
 CONSTANTS
-  NP = 4
+  NP = 5
   MaxOps = 100000000
   Pace = TRUE
+  MaxLevel = 5
   NVoters = 2
   KF_OrphanFirstMatchOnly = FALSE
   KF_StaleMarkers = FALSE
 INVARIANTS TypeOK TreeOK StoredOnce OrphansOK MarkersOK
 PROPERTIES SHighMonotone SRootMoves SPaceMonotone
 VIEW SViewVars
+CONSTRAINT LevelBound
 CHECK_DEADLOCK FALSE
